@@ -285,8 +285,8 @@ def run_stmt(st, S, I, R, indent):
         if not body:
             R.emit(indent + 1, ['pass'])
         for n, b in enumerate(body):
-            if n == len(body) - 1 and handlers:
-                raised |= cur
+            if handlers and (n == len(body) - 1 or not I.strict):
+                raised |= cur        # LENIENT: an exception may leave the body at any statement (Python's semantics outside the domain)
             cur = run_stmt(b, cur, I, R, indent + 1)
         done = cur
         if handlers and not I.strict:
